@@ -20,7 +20,7 @@ CHECKS = {
    "the deterministic pool is the maximal-reuse schedule; strings are immutable for the caller",
    "explicit-state search over operation histories with an invariant checked after every transition + exhaustive capacity sweep"),
  "C07": ("E1", "exploration",
-   "token strings and single-byte corruptions/truncations of small documents through 27 entry points; nesting-depth grid up to 10^6 (4*10^6 thorough) x shapes x closed/unclosed, 15 innermost leaf kinds at the depth limit +-1; cyclic / 100000-deep / unsupported encoder inputs; error objects for ALL (Pos, len) in [-40,len+40] x [0,80]; in crash-isolated workers (death attributed to the announced case, confirmed 5x)",
+   "token strings and single-byte corruptions/truncations of small documents through 27 entry points; nesting-depth grid up to 10^6 (4*10^6 thorough) x shapes x closed/unclosed, 15 innermost leaf kinds at the depth limit +-1; cyclic / 100000-deep / unsupported encoder inputs; error objects for ALL (Pos, len) in [-40,len+40] x [0,80]; in crash-isolated workers (death attributed to the announced case, confirmed 5x, the shard started again with the case skipped; documents deeper than 65536 levels each in a process of their own)",
    "a 10-minute watchdog stands in for 'hang'; the one-byte-per-Read stream grid stops at depth 65536 (quadratic re-scan, not a hang)",
    "bounded-exhaustive input enumeration in crash-isolated processes; oracle = survival + usable error values"),
  "C08": ("E3", "model_checking",
@@ -44,7 +44,7 @@ CHECKS = {
    "64-bit digests; outputs of maps without SortMapKeys compared as byte multisets (Go map order is random)",
    "exhaustive enumeration of a bounded value x option space replayed per start-up configuration, differential oracle"),
  "C13": ("E5", "exploration",
-   "four suites (native string/number routines on 20 payloads at every offset of every length 0..136 and 2048 exponents x mantissa patterns; structural validation through 17 APIs; the C03 encode suite; the C01 decode suite) enumerated with AVX2 and with SONIC_MODE=noavx2: bit-identical observations",
+   "five suites (error positions and codes of every length stratum and token string through the position-reporting entry points; native string/number routines on 20 payloads at every offset of every length 0..136 and 2048 exponents x mantissa patterns; structural validation through 17 APIs; the C03 encode suite; the C01 decode suite) enumerated with AVX2 and with SONIC_MODE=noavx2: bit-identical observations",
    "the host must support AVX2 for the comparison to be non-vacuous (it does here); 64-bit digests",
    "exhaustive enumeration of bounded input strata replayed per instruction-set configuration, differential oracle"),
  "C14": ("E1", "exploration",
